@@ -76,6 +76,9 @@ type Machine struct {
 	// FlushedSrec: a record was written to the staking trie (IntermediateRoot or
 	// ForEachStakingRecord) and is not committed yet (a Copy cannot name it).
 	DirtySrec, FlushedSrec bool
+	// ParentVal[a][s]: value of the storage slot when the tries were last brought up to date
+	// (state creation, IntermediateRoot, Commit, reopen) - "the parent/committed value".
+	ParentVal [NAcct][NSlot]common.Hash
 	// AcctDirtySinceRoot: an account object was modified since the last IntermediateRoot,
 	// so after Finalise it sits in both the pending and the dirty set.
 	AcctDirtySinceRoot bool
@@ -213,6 +216,17 @@ func (m *Machine) Revert(pos int) (pv interface{}, crossed []Event, snap Snap) {
 	return
 }
 
+func slotKey(s int) common.Hash { return common.BytesToHash([]byte{byte(s%NSlot + 1)}) }
+
+// noteParents records the slot values at a point where pending storage was flushed.
+func (m *Machine) noteParents() {
+	for a := 0; a < NAcct; a++ {
+		for s := 0; s < NSlot; s++ {
+			m.ParentVal[a][s] = m.St.GetState(Addrs[a], slotKey(s))
+		}
+	}
+}
+
 // noteDeaths is called right before a transaction boundary.
 func (m *Machine) noteDeaths() {
 	for a := 0; a < NAcct; a++ {
@@ -242,6 +256,7 @@ func (m *Machine) Finalise() {
 func (m *Machine) IRoot() [3]common.Hash {
 	m.noteDeaths()
 	a, b, c := m.St.IntermediateRoot(true)
+	m.noteParents()
 	m.NoteFlush()
 	m.AcctDirtySinceRoot = false
 	m.OpsSinceRoot = 0
@@ -263,6 +278,7 @@ func (m *Machine) Commit() error {
 		}
 	}
 	m.Roots = [3]common.Hash{a, b, c}
+	m.noteParents()
 	m.OpsSinceRoot = 0
 	m.Committed = true
 	m.AcctDirtySinceRoot = false
@@ -417,6 +433,13 @@ func (m *Machine) Exec(idx int, op Op) bool {
 			return false // code is set on an account that CREATE has just made
 		}
 		st.SetCode(Addrs[op.A%NAcct], code)
+	case "setparent":
+		// SSTORE of the value the slot had before this block's transactions touched it
+		if !st.Exist(Addrs[op.A%NAcct]) {
+			return false
+		}
+		st.SetState(Addrs[op.A%NAcct], slotKey(op.S), m.ParentVal[op.A%NAcct][op.S%NSlot])
+		m.label("write-back-parent-value")
 	case "setstate":
 		if !st.Exist(Addrs[op.A%NAcct]) {
 			return false // SSTORE writes to the executing contract, which exists
